@@ -36,6 +36,10 @@ def T(mod, names):
 TIE_KMER = [("KtVerif.Tie.Tables", "KT.Tie.nt4_kmer_table_eq_spec"), ("KtVerif.Tie.Tables", "KT.Tie.rev_mask_eq_three")]
 TIE_MIN = [("KtVerif.Tie.Tables", "KT.Tie.nt4_min_table_eq_spec")]
 TIE_KMIN = [("KtVerif.Tie.Tables", "KT.Tie.nt4_kmin_table_eq_spec")]
+TIE_CGR = [("KtVerif.Tie.Misc", "KT.Tie.cgr_corner_table_eq_spec")]
+TIE_OCGR = [("KtVerif.Tie.Misc", "KT.Tie.oligocgr_corner_table_eq_spec")]
+TIE_NUMSZ = [("KtVerif.Tie.Misc", "KT.Tie.number_size_eq_eight")]
+TIE_FMT = [("KtVerif.Tie.Misc", "KT.Tie.formats_eq_spec")]
 TIE_LETTERS = [("KtVerif.Tie.Tables", "KT.Tie.letters_eq_spec")]
 C01_CORE = T("KtVerif.Props.C01", ["kmerGen_eq_spec"])
 
@@ -49,15 +53,15 @@ PROPS = {
     "C03": {"theorems": props_theorems("C03") + TIE_LETTERS, "partial": []},
     "C04": {"ub_build": True, "theorems": props_theorems("C04") + C01_CORE + TIE_KMER + T("KtVerif.Props.FloatLemmas", ["f64OfNat_exact", "f64Div_nat_err", "f64Div_zero", "fmt6_quotient_correct", "fmt6_length"]), "partial": []},
     "C08": {"ub_build": True, "theorems": props_theorems("C08") + C01_CORE + TIE_KMER + T("KtVerif.Props.FloatLemmas", ["covBinF64_eq_div", "fmt6_quotient_correct"]), "partial": []},
-    "C11": {"theorems": props_theorems("C11") + T("KtVerif.Props.FloatLemmas", ["roundDiv_err", "f64OfNat_exact"]), "partial": []},
-    "C12": {"theorems": props_theorems("C12") + C01_CORE + TIE_KMER, "partial": []},
+    "C11": {"theorems": props_theorems("C11") + TIE_CGR + T("KtVerif.Props.FloatLemmas", ["roundDiv_err", "f64OfNat_exact"]), "partial": []},
+    "C12": {"theorems": props_theorems("C12") + TIE_OCGR + TIE_CGR + C01_CORE + TIE_KMER, "partial": []},
     "C05": {"theorems": props_theorems("C05") + T("KtVerif.Props.E2E", ["oligoRowText_length", "oligoRowText_eq_spec", "oligo_mmap_end_to_end", "oligo_batch_end_to_end", "oligoRowSpec_le_total"]), "partial": []},
-    "C14": {"ub_build": True, "theorems": props_theorems("C14") + T("KtVerif.Props.FloatLemmas", ["fmt6_length", "f64Div_le_one"]), "partial": []},
-    "C06": {"theorems": props_theorems("C06"), "partial": []},
+    "C14": {"ub_build": True, "theorems": props_theorems("C14") + TIE_NUMSZ + T("KtVerif.Props.FloatLemmas", ["fmt6_length", "f64Div_le_one"]), "partial": []},
+    "C06": {"theorems": props_theorems("C06") + TIE_FMT, "partial": []},
     "C07": {"theorems": props_theorems("C07") + T("KtVerif.Props.E2E", ["count_chunks_end_to_end", "count_end_to_end"]) + C01_CORE + TIE_KMER, "partial": []},
     "C10": {"theorems": props_theorems("C10", "C10sched") + T("KtVerif.Props.C09", ["minimisers_eq_specRuns", "minimisers_no_placeholder"]) + TIE_MIN + TIE_LETTERS, "partial": []},
     "C09": {"theorems": props_theorems("C09", "C09b") + TIE_MIN, "partial": []},
-    "C13": {"theorems": props_theorems("C13") + C01_CORE + TIE_KMER + TIE_MIN + TIE_LETTERS, "partial": [], "needs_py": True},
+    "C13": {"theorems": props_theorems("C13") + TIE_CGR + C01_CORE + TIE_KMER + TIE_MIN + TIE_LETTERS, "partial": [], "needs_py": True},
     "C15": {"theorems": props_theorems("C15") + [("KtVerif.Tie.Cli", "KT.Tie.clap_ranges_documented")], "partial": [], "needs_cli": True},
     "C16": {"theorems": props_theorems("C16") + T("KtVerif.Props.C09", ["minimisers_no_placeholder"]) + T("KtVerif.Props.C05", ["batchLoop_flatten"]), "partial": [], "needs_cli": True},
     "C17": {"theorems": props_theorems("C17"), "partial": [], "needs_cli": True},
